@@ -264,7 +264,7 @@ class CSSMediaRule(cssrule.CSSRuleRules):
                 self._setSeq(nameseq)
             else:
                 self._media = oldMedia
-                self._cssRules = oldCssRules
+                self.cssRules = oldCssRules
 
     cssText = property(
         _getCssText,
